@@ -63,7 +63,7 @@ func (c *fn) droppableCall(call *ast.CallExpr) bool {
 			}
 		}
 	}
-	if t := c.info.TypeOf(call); t != nil {
+	if t := c.tyOf(call); t != nil {
 		if _, isTuple := t.(*types.Tuple); !isTuple && c.g.kind(t, c.sub) == kDropped {
 			name, _, _ := c.calleeName(call)
 			return name == "github.com/notaryproject/notation-go/log.GetLogger"
@@ -90,7 +90,7 @@ func (c *fn) dropCall(call *ast.CallExpr, k kont) string {
 func (c *fn) argEffect(a ast.Expr) (cx, bool) {
 	c.inMsg++
 	defer func() { c.inMsg-- }()
-	if t := c.info.TypeOf(a); t != nil && c.g.kind(t, c.sub) == kDropped {
+	if t := c.tyOf(a); t != nil && c.g.kind(t, c.sub) == kDropped {
 		return cx{}, false
 	}
 	if r, ok := c.tryExpr(a); ok {
@@ -110,7 +110,7 @@ func (c *fn) totalSyntactically(e ast.Expr) bool {
 		if _, ok := c.info.Selections[x]; !ok {
 			return true // qualified identifier
 		}
-		t := c.info.TypeOf(x.X)
+		t := c.tyOf(x.X)
 		if t == nil {
 			return false
 		}
@@ -584,8 +584,15 @@ func (c *fn) errorValue(e ast.Expr) cx {
 		e = unparen(u.X)
 		star = "*"
 	}
-	if tag, ok := c.localErrIdentity(e); ok {
-		// a local error-struct variable with an identity of its own (Target.LocalErrorIdentity)
+	tag, ok := c.localErrIdentity(e)
+	if _, isLit := e.(*ast.CompositeLit); !ok && !isLit {
+		// a value of an error struct type held in a variable / field: its typ is the type, its message the Msg field
+		if n, isN := c.typeOf(e).(*types.Named); isN && c.g.kind(n, c.sub) == kStruct && n.Obj().Pkg() != nil && implementsError(n) {
+			tag, ok = n.Obj().Pkg().Name()+"."+n.Obj().Name(), true
+		}
+	}
+	if ok {
+		// (with Target.LocalErrorIdentity: a local error-struct variable with an identity of its own)
 		n, _ := c.typeOf(e).(*types.Named)
 		if n == nil || !implementsError(n) || c.g.kind(n, c.sub) != kStruct {
 			c.fail(e, "LocalErrorIdentity: %s is not of an error struct type", tag)
